@@ -37,6 +37,27 @@ Theorem C09_compound_paths_kept : forall l1 r l2 e0 d,
   In d (m_paths (fold_left route (l1 ++ r :: l2) e0)).
 Proof. exact compound_paths_kept. Qed.
 
+(* an EXECVE record of a compound event: the warning count never drops, and unless it grows, argc is in
+   Data and Process.Args holds the values of a0 .. a(argc-1) in order *)
+Theorem C09_execve_record_kept : forall e r d,
+  is_syscall r = false -> r_type r = MsgTypes.AUDIT_EXECVE -> r_data r = Some d ->
+  let e' := route e r in
+  m_warn e <= m_warn e' /\
+  (m_warn e' = m_warn e ->
+   exists argc c args, fget (L "argc") d = Some argc /\ fget (L "argc") (m_data e') = Some argc /\
+     read_num digit_of 10 argc 0%N = Some c /\ m_args e' = Some args /\
+     (N.to_nat c <= List.length d -> List.length args = N.to_nat c /\
+        forall j, j < N.to_nat c -> fget (L "a" ++ Dec.dec (N.of_nat j)) d = Some (nth j args []))).
+Proof. intros e r d Hs Ht Hd. unfold route. rewrite Hs, Hd, Ht. exact (add_execve_kept d e). Qed.
+(* a SOCKADDR record: unless a warning is counted (no syscall name to classify it), every field of the
+   record is in Data under socket_<key> *)
+Theorem C09_sockaddr_record_kept : forall e r d,
+  is_syscall r = false -> r_type r = MsgTypes.AUDIT_SOCKADDR -> r_data r = Some d ->
+  let e' := route e r in
+  m_warn e <= m_warn e' /\
+  (m_warn e' = m_warn e -> NoDup (map fst d) -> forall k v, In (k, v) d -> fget (L "socket_" ++ k) (m_data e') = Some v).
+Proof. intros e r d Hs Ht Hd. unfold route. rewrite Hs, Hd, Ht. exact (add_sockaddr_kept d e). Qed.
+
 (* setFileObject: the file summary mirrors the PATH record the normalisation selects (Check/ChkNorm.v:
    the first record at or after the normalisation's path index that is neither PARENT nor UNKNOWN) -
    path, inode and device always; when the mode parses, the owner ids and the permission bits
@@ -86,6 +107,8 @@ Proof. exact file_object_type. Qed.
 Theorem C09_unix_modes_read_as_file : forall mode dflt, (mode < 2 ^ 19)%N -> obj_type_of_mode mode dflt = L "file".
 Proof. exact object_type_of_unix_mode. Qed.
 
+Print Assumptions C09_execve_record_kept.
+Print Assumptions C09_sockaddr_record_kept.
 Print Assumptions C09_file_object_type.
 Print Assumptions C09_unix_modes_read_as_file.
 Print Assumptions C09_primary_nothing_dropped_partial.
